@@ -438,7 +438,7 @@ class C01(ost.OutstationProp):
         elif what == "dup-header": f = f[:10] + f
         return bytes(f)
 
-    def hostile_stream(self, rng, kind, peer_ctrls, dest):
+    def hostile_stream(self, rng, kind, peer_ctrls, dest, frag=2048):
         """bytes a hostile peer sends; peer_ctrls = control octets a frame from the right direction may carry"""
         def rframe(n=None, ctrl=None):
             n = rng.choice([0, 1, 15, 16, 17, 32, 100, 249, 250]) if n is None else n
@@ -478,6 +478,35 @@ class C01(ost.OutstationProp):
             return b"".join(pool[rng.below(len(pool))] for _ in range(n))
         if kind == "wrap":
             return b"".join(dnp.link_frame(*rframe()) if rng.chance(3, 4) else self.mutated_frame(rng, *rframe()) for _ in range(rng.range(4, 12)))
+        if kind == "segments":
+            # intact frames from the right peer whose TRANSPORT content is hostile: series that outgrow the receive
+            # buffer and go on (seeded change C01_b), random FIR/FIN/sequence, duplicates, header-only segments
+            data_ctrl = peer_ctrls[0]
+            seq = rng.below(64)
+            how = rng.choice(["overrun", "overrun", "overrun-fin", "random", "dup", "nofir", "empty"])
+            def seg(t, n): return dnp.link_frame(data_ctrl, dest, PEER, bytes([t & 0xFF]) + fbytes(rng, n))
+            parts = []
+            if how.startswith("overrun"):
+                size = rng.choice([249, 249, 200, 100])
+                nseg = frag // size + rng.range(2, 5)
+                for k in range(nseg):
+                    parts.append(seg((0x40 if k == 0 else 0) | ((seq + k) & 63), size))
+                if how == "overrun-fin":
+                    parts.append(seg(0x80 | ((seq + nseg) & 63), rng.choice([0, 1, 249])))
+            elif how == "random":
+                for _ in range(rng.range(5, 40)):
+                    parts.append(seg(rng.below(256), rng.choice([0, 1, 100, 249])))
+            elif how == "dup":
+                for k in range(rng.range(3, 12)):
+                    f = seg((0x40 if k == 0 else 0) | ((seq + k) & 63), rng.choice([1, 100, 249]))
+                    parts += [f] * rng.range(1, 3)
+            elif how == "nofir":
+                for k in range(rng.range(2, 12)):
+                    parts.append(seg((seq + k) & 63, rng.choice([1, 249])))
+            else:
+                for k in range(rng.range(2, 30)):
+                    parts.append(seg(((0x40 if k == 0 else 0) | ((seq + k) & 63)) if rng.chance(3, 4) else rng.below(256), 0))
+            return b"".join(parts)
         # mixed
         parts = []
         for _ in range(rng.range(2, 8)):
@@ -500,7 +529,9 @@ class C01(ost.OutstationProp):
             peer_ctrls = [d | 0x44, d | 0x44, d | 0x40, d | 0x49, d | 0x53, d | 0x73, d | 0x52, d | 0x00, d | 0x0B, d | 0x01, d | 0x0F]
             if kind == "wrap":
                 frag = 249
-            hostile = self.hostile_stream(rng, kind, peer_ctrls, ME)
+            if engine == "treader" and rng.chance(1, 4):
+                kind = "segments"
+            hostile = self.hostile_stream(rng, kind, peer_ctrls, ME, frag)
             cfg = {"mode": mode, "read": "stream", "frag": frag, "decode": rng.below(4)}
             if engine == "link":
                 frames = self.good_frames(rng, d)
